@@ -662,7 +662,24 @@ def literal_order(ctx, pt, o, label, ins_here, site):
         elif plain_walk and isinstance(n.key, ast.Name):
             ctx.violated("C06.3", fn, "comprehension for '%s' does not take its keys from sorted(...) in order" % label, n)
         else:
-            ctx.undecided("C06.3", fn, "comprehension for '%s' iterates `%s` and keys by `%s`: whether the keys arrive in sorted order is not read for this form" % (label, norm(it)[:60], norm(n.key)[:30]), n)
+            # the names come out of a package generator / helper: one that enumerates a directory without sorting hands them
+            # out in the operating system's order
+            raw = None
+            if isinstance(it, ast.Call) and C.sorted_listing_generator(ctx, fn, it) is None:
+                from tfsa import effects as E_
+                for T_ in C.targets_of(ctx, fn, it):
+                    for x in own_nodes(T_.node):
+                        if isinstance(x, ast.Call) and (C.is_ext_call(ctx, x, T_, tuple(E_.ENUM_SOURCES)) or (isinstance(x.func, ast.Attribute) and x.func.attr in E_.ENUM_METHODS)):
+                            par_ = ctx.prog.parent.get(x)
+                            if not (isinstance(par_, ast.Call) and C.is_ext_call(ctx, par_, T_, ("builtins.sorted",))) and \
+                                    not any(isinstance(y, ast.Call) and (C.is_ext_call(ctx, y, T_, ("builtins.sorted",)) or (isinstance(y.func, ast.Attribute) and y.func.attr == "sort"))
+                                            for y in own_nodes(T_.node)):
+                                raw = (T_, x)
+            if raw is not None and isinstance(n.key, ast.Name):
+                ctx.violated("C06.3", fn, "comprehension for '%s' takes its keys from %s, which hands out `%s` as the operating system enumerates it (nothing there sorts): the keys are not in sorted order" % (
+                    label, raw[0].qualname, norm(raw[1])[:50]), n)
+            else:
+                ctx.undecided("C06.3", fn, "comprehension for '%s' iterates `%s` and keys by `%s`: whether the keys arrive in sorted order is not read for this form" % (label, norm(it)[:60], norm(n.key)[:30]), n)
         return 1
     if isinstance(n, ast.Call):
         if n.keywords and not n.args:
